@@ -411,6 +411,83 @@ class Check(common.Check):
     def gen(self, rng, n):
         return [self.gen_tempo_batch(rng) if rng.random() < 0.08 else self.gen_one(rng) for _ in range(n)]
 
+    # ---- real-thread soak (thorough tier): count, order, not early, sched-ahead not lost -------
+    def soak_scenarios(self, G, n):
+        scs = []
+        for _ in range(n):
+            tempo = G.choice([1.0, 2.0, 4.0])
+            items, late_items, tid = [], [], 0
+            for k in 'sat':
+                # a far head, then (from the second thread, while the clock sleeps) a task ahead of it
+                far = G.choice([0.9, 1.0, 1.1])
+                items.append((k, far * (tempo if k == 't' else 1), tid, [])); tid += 1
+                items.append((k, 0.05 * G.randint(1, 6), tid, [0.05 * G.randint(0, 3) for _ in range(G.randint(0, 4))] +
+                              (['x'] if G.random() < 0.3 else []))); tid += 1
+                late_items.append((0.05 * G.randint(1, 3), k, 0.25 * (tempo if k == 't' else 1), tid,
+                                   [0.1] * G.randint(0, 2))); tid += 1
+            scs.append({'tempo': tempo, 'items': items, 'late_items': late_items, 'horizon': 1.8})
+        return scs
+
+    def extra_static(self):
+        if self.tier != 'thorough':
+            return []
+        G = __import__('random').Random(f'C08:soak:{self.seed}')
+        scs = self.soak_scenarios(G, 8)
+        res, err = common.run_impl('c08', 'run_soak', {'scenarios': scs}, timeout=600)
+        if res is None:
+            self.notes.append('soak failed to run: ' + str(err)[-300:])
+            return []
+        self.notes.append(f'real-thread soak: {len(scs)} scenarios, {sum(len(r["log"]) for r in res)} awakes')
+        out = []
+        for sc, r in zip(scs, res):
+            v = self.soak_check(sc, r)
+            if v:
+                out.append({'what': 'real threads: ' + v[0], 'signature': v[1], 'case': sc})
+                break
+        return out
+
+    @staticmethod
+    def soak_check(sc, r):
+        log = r['log']
+        if not all(r['alive'].values()):
+            return (f'a clock thread died: {r["alive"]}', 'c08:thread-died')
+        tasks = {t[2]: t for t in sc['items']}
+        tasks.update({t[3]: (t[1], t[2], t[3], t[4]) for t in sc['late_items']})
+        seen = {}
+        for k, tid, logical, beats, phys in log:
+            seen.setdefault(tid, []).append((k, logical, beats, phys))
+        for tid, (k, d, _, deltas) in tasks.items():
+            want = deltas.index('x') + 1 if 'x' in deltas else len(deltas) + 1
+            got = seen.get(tid, [])
+            if len(got) != want:
+                return (f'task {tid} on {k} awakened {len(got)} times, expected {want}', 'c08:soak-count')
+            for i, (kk, logical, beats, phys) in enumerate(got):
+                if phys < logical - 1e-9:
+                    return (f'task {tid} on {k} awakened at {phys:.4f} s before its time {logical:.4f} s', 'c08:soak-early')
+                if k != 'a' and i > 0:
+                    prev = got[i - 1]
+                    step = deltas[i - 1]
+                    exp = (prev[2] + step) if k == 't' else (prev[1] + step)
+                    cur = beats if k == 't' else logical
+                    if abs(cur - exp) > 1e-9:
+                        return (f'task {tid} on {k}: logical time {cur} after yielding {step} at {exp - step}', 'c08:soak-logical')
+        # the task scheduled ahead of the sleeping head must not wait for the head's deadline
+        for delay, k, d, tid, deltas in sc['late_items']:
+            first = seen[tid][0]
+            late = first[3] - first[1]
+            if late > 0.3:
+                return (f'task {tid} scheduled on {k} ahead of the sleeping head ran {late:.3f} s late', 'c08:soak-lost-wakeup')
+        # order per clock (sys/tempo): logical times of successive awakes never decrease by more than
+        # what a later scheduling call explains
+        for k in 'st':
+            times = [(l if k == 's' else b) for kk, tid, l, b, p in log if kk == k]
+            late_ids = {t[3] for t in sc['late_items']}
+            seq = [(tid, (l if k == 's' else b)) for kk, tid, l, b, p in log if kk == k and tid not in late_ids]
+            for (t1, a), (t2, b) in zip(seq, seq[1:]):
+                if b < a - 1e-9:
+                    return (f'clock {k}: task {t2} (time {b}) awakened after task {t1} (time {a})', 'c08:soak-order')
+        return None
+
     # ---- runners ---------------------------------------------------------------------------
     def impl(self, cases):
         res, err = common.run_impl('c08', 'run', {'cases': cases})
